@@ -129,8 +129,12 @@ class GCPMapping:
         return (
             "odc.geo._gcp.GCPMapping",
             str(self._crs),
-            self._wld,
-            self._pix,
+            # not the arrays themselves: those end up in the token as ``str(array)``,
+            # which is abbreviated for large and rounded for all arrays
+            *(
+                (a.shape, np.asarray(a, dtype="float64").tobytes())
+                for a in (self._wld, self._pix)
+            ),
         )
 
     @staticmethod
